@@ -115,8 +115,8 @@ theorem andThen_tr {α β : Type} {t0 : Transport} (x : World × Res α) (k : Wo
   · exact hx
   · exact hx
 
-theorem ccr_t {α : Type} (w : World) (r : Res α) : (w.checkConnectionReset r).1.t = w.t := by
-  rcases checkConnectionReset_cases w r with ⟨h, _⟩ | ⟨h, _⟩ <;> rw [h] <;> rfl
+theorem ccr_t {α : Type} (w : World) (r : Res α) : (w.checkConnectionReset r).1.t = w.t :=
+  checkConnectionReset_t w r
 
 theorem bufferFrame_tr (w : World) (f : Frame) : TReach w.t (w.bufferFrame f).1.t := by
   rw [bufferFrame_eq, ccr_t]
